@@ -462,11 +462,61 @@ func (st *State) markEscaped(v *Val, depth int) {
 		}
 		st.escaped[l.String()] = true
 		if ci, ok := st.closure[l.String()]; ok {
-			for _, b := range ci.bindings {
+			for i, b := range ci.bindings {
+				if i < len(ci.fn.FreeVars) && !closureWrites(ci.fn, ci.fn.FreeVars[i], 0) {
+					continue // captured but never assigned by the closure: unknown code cannot change it through the closure
+				}
 				st.markEscaped(b, depth+1)
 			}
 		}
 	}
+}
+
+// closureWrites: may fn (or a closure nested in it) store to the captured variable fv, or let its address escape?
+func closureWrites(fn *ssa.Function, fv *ssa.FreeVar, depth int) bool {
+	if depth > 4 {
+		return true
+	}
+	for _, b := range fn.Blocks {
+		for _, in := range b.Instrs {
+			switch x := in.(type) {
+			case *ssa.Store:
+				if x.Addr == ssa.Value(fv) {
+					return true
+				}
+				if x.Val == ssa.Value(fv) {
+					return true // the address itself is stored somewhere
+				}
+			case *ssa.MakeClosure:
+				inner := x.Fn.(*ssa.Function)
+				for i, bnd := range x.Bindings {
+					if bnd == ssa.Value(fv) && i < len(inner.FreeVars) && closureWrites(inner, inner.FreeVars[i], depth+1) {
+						return true
+					}
+				}
+			case ssa.CallInstruction:
+				for _, a := range x.Common().Args {
+					if a == ssa.Value(fv) {
+						return true // address passed on
+					}
+				}
+			case *ssa.FieldAddr:
+				if x.X == ssa.Value(fv) {
+					// &captured.field: a store through it writes the captured struct variable
+					for _, ref := range *x.Referrers() {
+						if st, ok := ref.(*ssa.Store); ok && st.Addr == ssa.Value(x) {
+							return true
+						}
+					}
+				}
+			case *ssa.MakeInterface:
+				if x.X == ssa.Value(fv) {
+					return true
+				}
+			}
+		}
+	}
+	return false
 }
 
 func (r *Run) store(st *State, a *Addr, val *Val, te TypeEnv) {
